@@ -21,7 +21,7 @@ REQUIRED = {"C15": {"expiry-hop": 500, "expiry-finish": 100, "re-entry-by-next_s
                     "in-state-done": 100, "post-end-iteration": 300, "exact-landing-strict": 100, "tie-accepted": 20,
                     "re-entered-timed-state-ran": 50, "states-inherited-through-two-or-more-levels": 100,
                     "second-mode-with-same-state-names-in-process": 200, "other-mode-ran-between-periods": 50,
-                    "underscore-named-timed-state": 100, "dashboard-edited-while-the-period-runs": 300}}
+                    "underscore-named-timed-state": 100, "dashboard-edited-while-the-period-runs": 300, "negative-duration-typed-on-the-dashboard": 50}}
 ASSUMPTIONS = {"C15": ["an expiry comparison landing exactly on start+duration is a tie unless every operand lies on the 1/64 s grid"]}
 
 NAMES = ["sa", "sb", "sc", "sd", "se", "sf"]
@@ -420,7 +420,9 @@ class Driver:
         for per in range(rng.choice([1, 2, 2, 3, 4])):
             if per and timed and rng.random() < 0.5:
                 st = rng.choice(timed)
-                v = GRID * rng.choice([0, 1, 3, 8]) if grid else rng.choice([0, period, 3 * period, rng.randrange(1, 5 * period)])
+                v = GRID * rng.choice([0, 1, 3, 8, -2]) if grid else rng.choice([0, period, 3 * period, rng.randrange(1, 5 * period), -period, -1])
+                if v < 0:
+                    self.ev("negative-duration-typed-on-the-dashboard")
                 if not do(["sd_dur", st["name"], v]):
                     return ops
             if case["sdvars"] and rng.random() < 0.5:
